@@ -1,15 +1,30 @@
 (* Line-protocol driver around the extracted Coq models.
    Request: op TAB arg TAB arg ...   Reply: one line. *)
-open Vmodel_ext
+open Datatypes
+open BinNums
+open Proc
 
 let split_tab s = String.split_on_char '\t' s
 
 let rec nat_of_int n = if n <= 0 then O else S (nat_of_int (n - 1))
 
+let rec int_of_nat = function O -> 0 | S n -> 1 + int_of_nat n
+
+let rec pos_of_int n =
+  if n <= 1 then Coq_xH else if n land 1 = 0 then Coq_xO (pos_of_int (n lsr 1)) else Coq_xI (pos_of_int (n lsr 1))
+
+let n_of_int n = if n <= 0 then N0 else Npos (pos_of_int n)
+
+let rec int_of_pos = function Coq_xH -> 1 | Coq_xO p -> 2 * int_of_pos p | Coq_xI p -> 2 * int_of_pos p + 1
+
+let int_of_n = function N0 -> 0 | Npos p -> int_of_pos p
+
+let ints_of_csv s = if s = "" then [] else List.map int_of_string (String.split_on_char ',' s)
+
 let bool_of_char c = c = '1'
 
 let params_of_string s =
-  if s = "code" then code_params
+  if s = "code" then GenProc.code_params
   else
     { bg_guard = bool_of_char s.[0]; guard_under_lock = bool_of_char s.[1];
       bg_notify = bool_of_char s.[2]; pub_marks_known = bool_of_char s.[3];
@@ -35,10 +50,31 @@ let op_proc = function
        | None -> "INFEASIBLE")
   | _ -> "BADARGS"
 
+(* blame_run n keys gitflags *)
+let op_blame_run = function
+  | [ n; keys; flags ] ->
+      let ks = ints_of_csv keys in
+      let ls = List.mapi (fun i k -> (n_of_int k, flags.[i] = '1')) ks in
+      (match Blame.run (nat_of_int (int_of_string n)) Blame.init ls with
+       | Blame.Ok cs ->
+           "OK\t" ^ String.concat ","
+             (List.map (function Some c -> string_of_int (int_of_nat c) | None -> "-") cs)
+       | Blame.Panic w -> "PANIC\t" ^ string_of_int (int_of_nat w))
+  | _ -> "BADARGS"
+
+(* blame_spec keys colours : the property on rendered rows *)
+let op_blame_spec = function
+  | [ keys; cols ] ->
+      let rows = List.map2 (fun k c -> (n_of_int k, nat_of_int c)) (ints_of_csv keys) (ints_of_csv cols) in
+      if Blame.specb [] rows then "true" else "false"
+  | _ -> "BADARGS"
+
 let dispatch = function
+  | "blame_run" :: args -> op_blame_run args
+  | "blame_spec" :: args -> op_blame_spec args
   | "ping" :: _ -> "pong"
   | "proc" :: args -> op_proc args
-  | "proc_code_params" :: _ -> "OK\t" ^ string_of_params code_params
+  | "proc_code_params" :: _ -> "OK\t" ^ string_of_params GenProc.code_params
   | op :: _ -> "UNKNOWN-OP " ^ op
   | [] -> "EMPTY"
 
